@@ -134,6 +134,9 @@ fn check_family(rep: &mut Report, k: usize, rc: bool, fam: &Fam, dir: &str) -> V
             bad.push((name.to_string(), e));
         }
     };
+    // older, longer output files are already there: build must replace them
+    scratch::stale(&format!("{dir}/x.skf"));
+    scratch::stale(&format!("{dir}/y.skf"));
     let b = build("x", &names);
     if b.code != 0 {
         step(rep, "build", Err(format!("ska build exit {} {}", b.code, tail(&b))));
